@@ -97,8 +97,22 @@ def comment(rng, kind, multiline_ok):
     return ('注' + n + '：“' + b + '”') if rng.random() < 0.5 else ('注' + n + '：「' + b + '」')
 
 
-def relayout(rng, src, spans, layout=None):
-    """src: canonical text (LF, 4-space indents, no comments); spans: [(start, end, type)] of its tokens in order."""
+def line_index(text, pos):
+    """0-based physical line of offset `pos`, counting line ends as the lexer does: CR, LF, CRLF and LFCR are ONE line end each"""
+    n, i = 0, 0
+    while i < pos:
+        c = text[i]
+        if c in '\r\n':
+            if i + 1 < len(text) and text[i + 1] in '\r\n' and text[i + 1] != c:
+                i += 1
+            n += 1
+        i += 1
+    return n
+
+
+def relayout(rng, src, spans, layout=None, offsets=None):
+    """src: canonical text (LF, 4-space indents, no comments); spans: [(start, end, type)] of its tokens in order.
+    offsets: if a list is passed, it receives the offset of every token in the returned text (same order as spans)."""
     L = dict(DEFAULT)
     if layout:
         L.update(layout)
@@ -203,6 +217,8 @@ def relayout(rng, src, spans, layout=None):
                 text = rng.choice(['“%s”', '「%s」']) % body
         if ty == T_ARRR:
             arr_depth = max(0, arr_depth - 1)
+        if offsets is not None:
+            offsets.append(len(out))          # index into `out`; turned into a character offset below
         out.append(text)
         prev = (a, b, ty)
         prev_line = line_of(max(a, b - 1))   # the line on which this token ENDS (a text literal may span lines)
@@ -212,4 +228,10 @@ def relayout(rng, src, spans, layout=None):
         out.append(' ' + comment(rng, rng.choice([0, 1]), False))
     k = rng.choice([0, 1, 1, 2])
     out.append(eol * k)
+    if offsets is not None:
+        acc, cum = 0, []
+        for x in out:
+            cum.append(acc)
+            acc += len(x)
+        offsets[:] = [cum[i] for i in offsets]
     return ''.join(out)
